@@ -66,3 +66,60 @@ pub fn settle_long_lived_threads() {
     });
     std::hint::black_box(n);
 }
+
+// ---- unscheduled ("wild") thread seam of the shim
+
+fn sym(name: &[u8]) -> *mut c_void {
+    unsafe { dlsym(std::ptr::null_mut(), name.as_ptr() as *const c_char) }
+}
+
+pub fn mark_server_thread(on: bool) {
+    let p = sym(b"simlibc_mark_server_thread\0");
+    if !p.is_null() {
+        unsafe { std::mem::transmute::<*mut c_void, unsafe extern "C" fn(i32)>(p)(on as i32) }
+    }
+}
+
+pub fn expect_spawn() {
+    let p = sym(b"simlibc_expect_spawn\0");
+    if !p.is_null() {
+        unsafe { std::mem::transmute::<*mut c_void, unsafe extern "C" fn()>(p)() }
+    }
+}
+
+pub fn wild_config(seed: u64, max_delay_us: i64) {
+    let p = sym(b"simlibc_wild_config\0");
+    if !p.is_null() {
+        unsafe { std::mem::transmute::<*mut c_void, unsafe extern "C" fn(u64, i64)>(p)(seed, max_delay_us) }
+    }
+}
+
+pub fn wild_live() -> i64 {
+    let p = sym(b"simlibc_wild_live\0");
+    if p.is_null() {
+        0
+    } else {
+        unsafe { std::mem::transmute::<*mut c_void, unsafe extern "C" fn() -> i64>(p)() }
+    }
+}
+
+pub fn wild_total() -> i64 {
+    let p = sym(b"simlibc_wild_total\0");
+    if p.is_null() {
+        0
+    } else {
+        unsafe { std::mem::transmute::<*mut c_void, unsafe extern "C" fn() -> i64>(p)() }
+    }
+}
+
+/// wait (real time, bounded) until no unscheduled thread is alive; returns false on timeout
+pub fn wait_wild_threads(timeout_ms: u64) -> bool {
+    let t0 = std::time::Instant::now();
+    while wild_live() > 0 {
+        if t0.elapsed().as_millis() as u64 > timeout_ms {
+            return false;
+        }
+        std::thread::sleep(std::time::Duration::from_micros(100));
+    }
+    true
+}
